@@ -2,22 +2,25 @@ import ScVerif.C20.FanSpeedLemmas
 /-! Spec predicates and the step lemma for C20/FanSpeed (helpers for PropsFanSpeed). -/
 namespace ScVerif.C20.FanSpeed
 
+set_option linter.unusedSectionVars false
+variable {α : Type} [DecidableEq α] (add : α → α → α)
+
 /-- preset, index and percentage agree: a named preset sits at `index` with that percentage; no
 preset means index −1 and no preset has that percentage. -/
-def Consistent (ps : List Preset) (v : Fan) : Prop :=
+def Consistent (ps : List (Preset α)) (v : Fan α) : Prop :=
   (v.preset ≠ "" → 0 ≤ v.index ∧ ∃ p, ps[v.index.toNat]? = some p ∧ p.name = v.preset ∧ p.pct = v.pct) ∧
   (v.preset = "" → v.index = -1 ∧ ∀ p ∈ ps, p.pct ≠ v.pct)
 
 /-- well-formed configuration: at least one preset, every preset named -/
-def WF (ps : List Preset) : Prop := ps ≠ [] ∧ ∀ p ∈ ps, p.name ≠ ""
+def WF (ps : List (Preset α)) : Prop := ps ≠ [] ∧ ∀ p ∈ ps, p.name ≠ ""
 
 /-- The explicit hypothesis on the write: it does not clear the preset of a fan that has one (the
 value handed to DeriveValues keeps a non-empty preset non-empty).  A mask-less write that omits the
 preset, on a fan at a named preset, is the excluded point. -/
-def WriteOK (old : Fan) (r : Request) : Prop :=
-  ¬ ((merged old r).preset = "" ∧ old.preset ≠ "")
+def WriteOK (old : Fan α) (r : Request α) : Prop :=
+  ¬ ((merged add old r).preset = "" ∧ old.preset ≠ "")
 
-instance (old : Fan) (r : Request) : Decidable (WriteOK old r) := by unfold WriteOK; infer_instance
+instance (old : Fan α) (r : Request α) : Decidable (WriteOK add old r) := by unfold WriteOK; infer_instance
 
 theorem clamp_bounds (n : Nat) (hn : 0 < n) (x : Int) :
     let idx := if x ≥ (n : Int) then (n : Int) - 1 else x
@@ -32,17 +35,17 @@ theorem clamp_eq (n : Nat) (hn : 0 < n) (x : Int) :
   simp only [Int.max_def, Int.min_def]
   split <;> split <;> (try split) <;> (try split) <;> omega
 
-theorem getElem?_mem {ps : List Preset} {i : Nat} {p : Preset} (h : ps[i]? = some p) : p ∈ ps :=
+theorem getElem?_mem {ps : List (Preset α)} {i : Nat} {p : Preset α} (h : ps[i]? = some p) : p ∈ ps :=
   List.mem_of_getElem? h
 
-theorem consistent_step (ps : List Preset) (old v : Fan) (r : Request) (hwf : WF ps)
-    (hc : Consistent ps old) (hw : WriteOK old r) (hu : update ps old r = .ok v) : Consistent ps v := by
+theorem consistent_step (ps : List (Preset α)) (old v : Fan α) (r : Request α) (hwf : WF ps)
+    (hc : Consistent ps old) (hw : WriteOK add old r) (hu : update add ps old r = .ok v) : Consistent ps v := by
   unfold update at hu
   by_cases hval : r.src.preset ≠ "" ∧ (findIdx (fun p => p.name == r.src.preset) ps).isNone
   · simp [hval] at hu
   · simp only [hval, if_false] at hu
-    generalize hnew : merged old r = new at hu hw
-    have hmp := merged_preset old r
+    generalize hnew : merged add old r = new at hu hw
+    have hmp := merged_preset add old r
     rw [hnew] at hmp
     have hu : deriveValues ps old new = some v := by
       cases hdv : deriveValues ps old new with
